@@ -39,7 +39,7 @@ type piece struct {
 	Host   bool
 	Stmts  []gen.Stmt
 	Text   string // for rejected pieces
-	Reject string // "" | "syntax" | "undefined" | "const-assign" | "const-incdec" | "undefined-in-func" | "dup-func" | "effect-then-reject"
+	Reject string // "" | "syntax" | "undefined" | "const-assign" | "const-incdec" | "undefined-in-func" | "block-shadow-undefined" | "dup-func" | "effect-then-reject"
 }
 
 type pieceObs struct {
@@ -230,7 +230,7 @@ type out struct {
 	WholeAgree int       `json:"whole_agree"`
 }
 
-func rejectPiece(kind string, k int, consts, funcs []string) piece {
+func rejectPiece(kind string, k int, consts, funcs []string, vars ...string) piece {
 	switch kind {
 	case "syntax":
 		texts := []string{"x := := 3", "func (", ")", "if { }", "1 +", "[1, 2", "for i := 0; i <", "x = = 1", "switch {", "'{'"}
@@ -245,6 +245,17 @@ func rejectPiece(kind string, k int, consts, funcs []string) piece {
 		if len(consts) > 0 {
 			return piece{Text: fmt.Sprintf("%s%s", consts[k%len(consts)], []string{"++", "--"}[k%2]), Reject: "const-incdec"}
 		}
+	case "block-shadow-undefined":
+		// the rejected piece declares, inside a top-level block, a variable with the name of a live global
+		// before it fails (the block's leftover instructions only touch the block's own variable)
+		if len(vars) > 0 {
+			return piece{Text: fmt.Sprintf("if true { %s := 1; nosuchname_%d }", vars[k%len(vars)], k), Reject: "block-shadow-undefined"}
+		}
+	case "undefined-in-func-with-strings":
+		// the failing function body holds string constants and map keys that later pieces use too
+		forms := []string{`func rjs_%d() { x := "ab"; y := {"k": "z", "a": "b"}; return nosuchname_%d }`, `rjt_%d := func() { return ["hello", "x y", "0", "a", "c", nosuchname_%d] }`,
+			`func rju_%d() { m := {"zz": 1, "b": 2, "c": 3}; return m["zz"] + nosuchname_%d }`}
+		return piece{Text: fmt.Sprintf(forms[k%len(forms)], k, k), Reject: "undefined-in-func"}
 	case "undefined-in-func":
 		// the failure happens while the compiler is inside a function body
 		forms := []string{"func rjf_%d() { return nosuchname_%d }", "rjv_%d := func(a) { return func() { return a + nosuchname_%d } }", "[1].map(func(x) { nosuchname_%[2]d })",
@@ -458,6 +469,16 @@ func runHistory1(pieces []piece, deadline time.Duration) (sig, detail, script st
 	return "", "", sb.String(), st, true, nil, false
 }
 
+// topVars: names of the plain (non-constant) top-level variable declarations.
+func topVars(stmts []gen.Stmt) (vars []string) {
+	for _, s := range stmts {
+		if x, ok := s.(*gen.VarDecl); ok && x.Kind != "const" {
+			vars = append(vars, x.Name)
+		}
+	}
+	return
+}
+
 func topNames(p *gen.Program) (consts, funcs []string) {
 	for _, s := range p.Stmts {
 		switch x := s.(type) {
@@ -602,7 +623,7 @@ func worker(kind string, data json.RawMessage) any {
 			pieces = append(pieces, piece{Stmts: cur})
 			if c.Rejects && hi%2 == 1 {
 				// insert rejected pieces at random positions
-				kinds := []string{"syntax", "undefined", "const-assign", "dup-func", "const-incdec", "undefined-in-func"}
+				kinds := []string{"syntax", "undefined", "const-assign", "dup-func", "const-incdec", "undefined-in-func", "block-shadow-undefined", "undefined-in-func-with-strings"}
 				if c.D20 {
 					kinds = []string{"effect-then-reject"}
 				}
@@ -610,18 +631,19 @@ func worker(kind string, data json.RawMessage) any {
 				for pi, pc := range pieces {
 					if r.Chance(1, 3) {
 						// const / function names must already exist at this point of the history
-						var cs2, fs2 []string
+						var cs2, fs2, vs2 []string
 						for _, q := range pieces[:pi] {
 							c3, f3 := topNames(&gen.Program{Stmts: q.Stmts})
 							cs2 = append(cs2, c3...)
 							fs2 = append(fs2, f3...)
+							vs2 = append(vs2, topVars(q.Stmts)...)
 						}
-						withRej = append(withRej, rejectPiece(mon.Pick(r, kinds), r.Intn(1000), cs2, fs2))
+						withRej = append(withRej, rejectPiece(mon.Pick(r, kinds), r.Intn(1000), cs2, fs2, vs2...))
 					}
 					withRej = append(withRej, pc)
 				}
 				if r.Chance(1, 2) {
-					withRej = append(withRej, rejectPiece(mon.Pick(r, kinds), r.Intn(1000), consts, funcs))
+					withRej = append(withRej, rejectPiece(mon.Pick(r, kinds), r.Intn(1000), consts, funcs, topVars(p.Stmts)...))
 				}
 				pieces = withRej
 			}
